@@ -360,7 +360,7 @@ fn main() {
             check_corners(ctx, c1, c2);
         });
         // random large
-        let nr = run.tier(400_000u64, 6_000_000u64);
+        let nr = run.tier(2_000_000u64, 300_000_000u64);
         fn rr(rng: &mut Rng) -> Rectangle {
             let big = rng.chance(1, 2);
             let c = |rng: &mut Rng| if big { rng.i32r(-(1 << 20), 1 << 20) } else { rng.biased_i32(1100) };
